@@ -439,12 +439,21 @@ fn hexd(r: &mut Rng, n: usize) -> String {
 }
 
 fn digest_like(r: &mut Rng) -> String {
-    match r.below(10) {
+    match r.below(12) {
         0 => "d".into(),
         1 => "r".into(),
         2 => "e".into(),
         3 => hexd(r, 4),
         4 => "abc".into(),
+        // caller-supplied digests ("#" field, character codes) may be upper or mixed case
+        5 => {
+            let n = 2 + r.below(3);
+            hexd(r, n).to_uppercase()
+        }
+        6 => {
+            let h = hexd(r, 64);
+            h.chars().enumerate().map(|(i, c)| if i % 3 == 0 { c.to_ascii_uppercase() } else { c }).collect()
+        }
         _ => hexd(r, 64),
     }
 }
@@ -729,6 +738,11 @@ pub fn oracle(req: &Value) -> Vec<(String, String)> {
             // print/parse identity on whatever parses (system-produced strings are the domain)
             if let Ok(r) = parse_rev(a[1].as_str().unwrap()) {
                 let s = r.to_string();
+                // a system-produced text is the print of some revision: parsing it must give that revision back,
+                // so printing the parse must give the text back
+                if is_system_rev(a[1].as_str().unwrap()) && s != a[1].as_str().unwrap() {
+                    fails.push(("C19".into(), format!("the identifier {} parses to a revision that prints as {}", a[1].as_str().unwrap(), s)));
+                }
                 match parse_rev(&s) {
                     Ok(r2) if r2 == r && r2.to_string() == s => {}
                     _ => {
